@@ -252,8 +252,8 @@ const (
 
 var cacheDocs = []string{
 	`<mjml><mj-body><mj-section><mj-column><mj-text>Doc A</mj-text></mj-column></mj-section></mj-body></mjml>`,
-	`<mjml><mj-body><mj-section><mj-column><mj-text>Doc B</mj-text></mj-column></mj-section></mj-body></mjml>`,                // differs from A in one byte
-	`<mjml><mj-body><mj-section><mj-column><mj-text>unclosed</mj-column></mj-section></mj-body></mjml>`,                       // unparsable
+	`<mjml><mj-body><mj-section><mj-column><mj-text>Doc B</mj-text></mj-column></mj-section></mj-body></mjml>`, // differs from A in one byte
+	`<mjml><mj-body><mj-section><mj-column><mj-text>unclosed</mj-column></mj-section></mj-body></mjml>`,        // unparsable
 	// validation error, HTML still returned; longer than every other document (a parse buffer reused between compilations is
 	// overwritten over its whole length by this one)
 	`<mjml><mj-body><mj-section><mj-column><mj-text bogus-attr="1">Doc V ` + strings.Repeat("lorem ipsum dolor sit amet ", 120) + `</mj-text></mj-column></mj-section></mj-body></mjml>`,
